@@ -1279,6 +1279,14 @@ void reb_integrator_whfast_part2(struct reb_simulation* const r){
         if (ri_whfast->keep_unsynchronized){
             memcpy(p_j,sync_pj,r->N*sizeof(struct reb_particle));
             free(sync_pj);
+            // The centre-of-mass drift of the variational particles above was applied to the
+            // synchronized coordinates which have just been discarded. Redo it on the restored ones.
+            for (int v=0;v<r->N_var_config;v++){
+                const int index = r->var_config[v].index;
+                p_j[index].x += r->dt/2.*p_j[index].vx;
+                p_j[index].y += r->dt/2.*p_j[index].vy;
+                p_j[index].z += r->dt/2.*p_j[index].vz;
+            }
             ri_whfast->is_synchronized=0;
         }
     }
